@@ -434,7 +434,10 @@ class Project(MessageHandler):
             """Recursively propagate end constraint down the task tree."""
             task_end = task.get("end", scIdx)
             # Use the most restrictive (earliest) end date
-            effective_end = task_end if task_end else container_end
+            if task_end and container_end:
+                effective_end = min(task_end, container_end)
+            else:
+                effective_end = task_end if task_end else container_end
 
             if task.leaf():
                 # Leaf task - apply the constraint if ALAP, no explicit end,
